@@ -576,7 +576,8 @@ pub fn gen_fnmap(rng: &mut Rng, max_line0: u32, max_col: u32) -> FnMap {
     let names: Vec<String> = (0..n_names).map(|_| rng.pick(FN_NAME_POOL).to_string()).collect();
     let n_entries = rng.range_usize(0, 14);
     let mut entries = vec![];
-    let mut l = 1 + rng.below(2) as u32;
+    // one function map in six starts far down the file (large line numbers / line deltas)
+    let mut l = if rng.chance(1, 6) { *rng.pick(&[4_000u32, 5_000, 70_000, 1 << 20]) + rng.below(50) as u32 } else { 1 + rng.below(2) as u32 };
     let mut c = rng.below(4) as u32;
     for _ in 0..n_entries {
         let name_idx = if n_names > 0 && !rng.chance(1, 10) { rng.below(n_names as u64) as u32 } else { rng.below(8) as u32 };
